@@ -307,6 +307,10 @@ def run(F, rep, tier):
     import streamid
     streamid.slp_rule(F, rep, 'coverage.stream')
     format_rule(F, G, rep)
+    # the digest is a function of the bytes of this read alone: no hasher state survives a call (pools, thread-locals, statics)
+    from props import C18
+    amb = C18.ambient_state(F, G, G.reachable(["io::slippi::de::read", "io::HashingReader::<R>::new", "io::HashingReader::<R>::into_digest"]))
+    rep.ob("hash.stateless", not amb, "io::slippi::de::read", "ambient-state", "the reader's reachable set keeps state across calls (%s): a digest could depend on earlier reads" % "; ".join("%s in %s @ %s" % (c, reach.short(o), sp) for o, c, sp in amb[:3]))
     persistence_rule(F, G, rep)
     fake = fmtspec.decode_template([5] + list(b"xxh3:") + [0xC0, 0])
     rep.control("E6 distinguishes {:016x} from {}", fmtspec.is_default_spec(fake[1][1]))
